@@ -417,7 +417,7 @@ func (e *Engine) assumptions() []string {
 		"user callbacks and interface methods (Execute, handlers, Unmarshaler, ...) do not modify the parser's own data structures; their results are unconstrained",
 		"build configuration GOOS=linux, tags verif: optstyle_windows.go and termsize_windows.go are not part of the verified text",
 		"floating point (one use, the suggestion threshold of estimateCommand) is real arithmetic: exact for operands below 2^24; x/0 is an infinity, 0/0 a NaN for which every ordered comparison is false",
-		"iterator methods (eachGroup, eachCommand, eachOption, eachActiveGroup) called with a closure are loops over a ghost sequence that is a function of the receiver; what the sequence holds is assumed (axioms eg_nonempty, eag_elem, chain_*); the bodies of eachGroup, eachCommand and eachActiveGroup are verified against the shape of their walk (own items to the callback once each, one recursion per child / into the active subcommand), eachOption is not, and the link between a body's callback calls and the ghost sequence is not mechanised",
+		"iterator methods (eachGroup, eachCommand, eachOption, eachActiveGroup) called with a closure are loops over a ghost sequence that is a function of the receiver; what the sequence holds is assumed (axioms eg_nonempty, eag_elem, chain_*); the bodies of eachGroup, eachCommand, eachActiveGroup and eachOption are verified against the shape of their walk (own items to the callback once each, one recursion per child / into the active subcommand), and the link between a body's callback calls and the ghost sequence is not mechanised",
 		"range over a Go map runs over an arbitrary ghost key order (distinct keys, all of the domain); entries of the parser's tables under a present key are assumed non-nil (wf nonnil-elements)",
 		"package-level functions of strings, strconv, unicode, unicode/utf8, math, bytes without an assumed contract are uninterpreted pure functions of their arguments",
 		"package functions without a contract that are loop-free, non-recursive and take no address of a local are executed inline at their call sites; any other call of a function without contract is an engine limit",
